@@ -1297,6 +1297,20 @@ def check_C15(cx):
             h = ["N 0 -", "A 0 %s" % cases.hexs(good[0]), "N 1 -", "N 2 -", "A 2 %s" % grow] + kill + h[1:i_tw] + ["N 0 -"] + h[i_tw + 1:]
             hists.append(h)
             meta.append((tl, ne))
+    # twenty library-managed instances that each grew by four megabytes and were destroyed (80 MB in total) in front of the final call on
+    # a library-managed instance that has to grow itself: what the library accounts per process must have been given back
+    cyc = []
+    for _ in range(20):
+        cyc += ["N 1 -", "O 1 4000000", "A 1 %s" % cases.hexs(b"nop"), "F 1"]
+    for fin in finals[:2]:
+        h, tl, ne = build([], None, fin, 5)
+        i_tw = max(i for i, x in enumerate(h) if x.startswith("N 0 "))
+        body = [x.replace("O 0 5", "O 0 3000000") if x == "O 0 5" else x for x in h[1:i_tw]]
+        body2 = [x.replace("O 0 5", "O 0 3000000") if x == "O 0 5" else x for x in h[i_tw + 1:]]
+        body = [("D 0 3000000 3000160" if x.startswith("D 0 5 ") else x) for x in body]
+        body2 = [("D 0 3000000 3000160" if x.startswith("D 0 5 ") else x) for x in body2]
+        hists.append(cyc + ["N 0 -"] + body + ["N 0 -"] + body2)
+        meta.append((tl, ne))
     nex = len(hists)
     for _ in range(300 if cx.tier == "quick" else 3000):
         seq = [r.choice(alphabet) for _ in range(r.choice([4, 6, 10]))]
@@ -3499,10 +3513,22 @@ def check_C20(cx):
                 for stdin in (False, True):
                     cases_.append((pi, mode + out if r.random() < 0.5 else out + mode, stdin))
     # -r on side-effect free programs
+    r_expected = {}
     for v in [0, 5, 0x7fffffff, 0x80000000, 0xffffffff, 0x100000000, 0x1122334455667788, 0xffffffffffffffff]:
         for mode in (["t"], ["n"], ["s"], []):
             progs.append(b"mov rax, 0x%x\nret\n" % v)
+            r_expected[len(progs) - 1] = v
             cases_.append((len(progs) - 1, mode + ["r"], r.random() < 0.5))
+    # -r hands the code six pointers (rdi, rsi, rdx, rcx, r8, r9) to DISTINCT zeroed arrays of ten qwords: what is stored through one is
+    # read back through the same one only, the last qword of each is usable
+    for text, v in [(b"mov rax, -1\nmov [rdi+16], rax\nmov rax, [rsi]\nret\n", 0),
+                    (b"mov qword [rdi], 7\nmov rax, [rdi]\nadd rax, [rdi+8]\nret\n", 7),
+                    (b"mov qword [r9+72], 5\nmov rax, [r8]\nadd rax, [r9+72]\nadd rax, [rcx+8]\nadd rax, [rdx+72]\nret\n", 5),
+                    (b"mov qword [rsi+72], 3\nmov qword [rdx], 4\nmov rax, [rsi+72]\nadd rax, [rdx]\nadd rax, [rcx]\nret\n", 7)]:
+        for stdin_ in (False, True):
+            progs.append(text)
+            r_expected[len(progs) - 1] = v
+            cases_.append((len(progs) - 1, ["r"], stdin_))
     ops, obs = [], []
     nviol = 0
     for pi, toks, stdin in cases_:
@@ -3580,7 +3606,7 @@ def check_C20(cx):
                 bad = "-p does not print the bytes the library produced" + (" (stdin with -c: the buffer is printed again after every line)" if cumulative else "")
         if xrc == 0 and "r" in toks:
             m = re.search(r"the value is 0x([0-9a-f]+)", so)
-            v = int(re.search(rb"0x([0-9a-f]+)", progs[pi]).group(1), 16)
+            v = r_expected[pi]
             if not m or int(m.group(1), 16) != v:
                 bad = "-r does not print the value the code returns in rax"
         if "Pbad" in toks and xrc == 0 and not usage:
